@@ -14,6 +14,7 @@ package main
 
 import (
 	"encoding/binary"
+	"fmt"
 	"math/rand"
 	"os"
 	"strconv"
@@ -37,22 +38,23 @@ const (
 type scen struct {
 	tr      *vh.Trace
 	id      int64
-	respSeq sync.Map // session -> *atomic.Int32
+	respSeq sync.Map // (connection, session) -> *atomic.Int32
+	conns   sync.Map // server connection id -> connection number (1, 2) of the scenario
 	prog    atomic.Int64
 	delay   int // handler delays responses (out of order across sessions)
 }
 
 var cur atomic.Pointer[scen]
 
-func emitMsg(tr *vh.Trace, ev, dir string, s uint32, seq int, data []byte) {
+func emitMsg(tr *vh.Trace, ev, dir string, c int, s uint32, seq int, data []byte) {
 	d := cs.DigestOf(data)
-	tr.Emit(vh.E(ev, "dir", dir, "s", int(s), "seq", seq, "n", d.N, "h1", d.H1, "h2", d.H2))
+	tr.Emit(vh.E(ev, "dir", dir, "c", c, "s", int(s), "seq", seq, "n", d.N, "h1", d.H1, "h2", d.H2))
 }
 
-func tap(tr *vh.Trace, dir string) cs.FrameTap {
+func tap(tr *vh.Trace, dir string, c int) cs.FrameTap {
 	return func(session uint32, size int, final byte, payload []byte) {
 		d := cs.DigestOf(payload)
-		tr.Emit(vh.E("Frame", "dir", dir, "s", int(session), "seq", 0, "n", size, "h1", d.H1, "h2", d.H2, "fin", int(final)))
+		tr.Emit(vh.E("Frame", "dir", dir, "c", c, "s", int(session), "seq", 0, "n", size, "h1", d.H1, "h2", d.H2, "fin", int(final)))
 	}
 }
 
@@ -154,7 +156,12 @@ func handler(wb *mux.WriteBuf, _ *core.Thread, id uint64, req []byte) {
 		return // connection closing
 	}
 	sid := uint32(id)
-	emitMsg(sc.tr, "Deliver", "c2s", sid, 0, req)
+	cv, ok := sc.conns.Load(uint32(id >> 32))
+	if !ok {
+		return // a connection of an earlier scenario
+	}
+	c := cv.(int)
+	emitMsg(sc.tr, "Deliver", "c2s", c, sid, 0, req)
 	respLen, seed := parseReq(req)
 	r := rand.New(rand.NewSource(int64(seed)))
 	if sc.delay > 0 && r.Intn(3) == 0 {
@@ -163,9 +170,9 @@ func handler(wb *mux.WriteBuf, _ *core.Thread, id uint64, req []byte) {
 	resp := make([]byte, 1+respLen)
 	resp[0] = 1 // ClientSession.Request expects a leading true
 	fill(resp[1:], seed)
-	v, _ := sc.respSeq.LoadOrStore(sid, new(atomic.Int32))
+	v, _ := sc.respSeq.LoadOrStore([2]uint32{uint32(c), sid}, new(atomic.Int32))
 	seq := int(v.(*atomic.Int32).Add(1))
-	emitMsg(sc.tr, "Send", "s2c", sid, seq, resp)
+	emitMsg(sc.tr, "Send", "s2c", c, sid, seq, resp)
 	wb.ResetWrite()
 	writePieces(wb, resp, r)
 	wb.EndMsg()
@@ -229,12 +236,25 @@ func scenario(tr *vh.Trace, rnd *rand.Rand, s, nscen int) (int, int64, bool) {
 			chc.Yield, chs.Yield = 2000, 2000
 		}
 	}
-	cl, sv := cs.Pipe("10.1.0.1:1", "10.9.9.9:3147", chc, chs)
-	cl.SetTap(tap(tr, "c2s"))
-	sv.SetTap(tap(tr, "s2c"))
-	client := mux.NewClientConn(cl)
-	msc := mux.NewServerConn(sv)
-	go msc.Run(workers.Submit)
+	// one or two connections served by the same worker pool (session ids are per
+	// connection, so the same ids are in use on both)
+	nconn := 1
+	if rnd.Intn(3) == 0 {
+		nconn = 2
+	}
+	var pipes []*cs.Conn
+	var clients []*mux.ClientConn
+	for c := 1; c <= nconn; c++ {
+		chc.Seed, chs.Seed = rnd.Int63(), rnd.Int63()
+		cl, sv := cs.Pipe(fmt.Sprintf("10.1.0.%d:1", c), "10.9.9.9:3147", chc, chs)
+		cl.SetTap(tap(tr, "c2s", c))
+		sv.SetTap(tap(tr, "s2c", c))
+		clients = append(clients, mux.NewClientConn(cl))
+		msc := mux.NewServerConn(sv)
+		sc.conns.Store(msc.Id(), c)
+		go msc.Run(workers.Submit)
+		pipes = append(pipes, cl)
+	}
 
 	nsess := 1 + rnd.Intn(8)
 	nmsg := 3 + rnd.Intn(12)
@@ -244,7 +264,8 @@ func scenario(tr *vh.Trace, rnd *rand.Rand, s, nscen int) (int, int64, bool) {
 	var wg sync.WaitGroup
 	var nbytes atomic.Int64
 	for i := 0; i < nsess; i++ {
-		ses := client.NewClientSession()
+		c := 1 + i%nconn
+		ses := clients[c-1].NewClientSession()
 		r := rand.New(rand.NewSource(rnd.Int63()))
 		wg.Add(1)
 		go func() {
@@ -262,13 +283,13 @@ func scenario(tr *vh.Trace, rnd *rand.Rand, s, nscen int) (int, int64, bool) {
 					binary.BigEndian.PutUint32(req[4:], r.Uint32())
 					fill(req[8:], r.Uint32())
 				}
-				emitMsg(tr, "Send", "c2s", sid, m, req)
+				emitMsg(tr, "Send", "c2s", c, sid, m, req)
 				ses.ResetWrite()
 				writePieces(&ses.WriteBuf, req, r)
 				ses.Request() // EndMsg, wait for the response, check its leading true
 				rest := ses.GetN(ses.Remaining())
 				resp := append([]byte{1}, rest...)
-				emitMsg(tr, "Deliver", "s2c", sid, 0, resp)
+				emitMsg(tr, "Deliver", "s2c", c, sid, 0, resp)
 				nbytes.Add(int64(n + len(resp)))
 				sc.prog.Add(1)
 				if r.Intn(4) == 0 {
@@ -287,10 +308,12 @@ func scenario(tr *vh.Trace, rnd *rand.Rand, s, nscen int) (int, int64, bool) {
 		select {
 		case <-done:
 			tr.Emit(vh.E("Done", "nsent", 2*nsess*nmsg))
-			cl.Close()
-			// the real client's reader ends through core.Fatal("lost connection"):
-			// wait for it so that it is not mistaken for a loss in the next scenario
-			for i := 0; cs.NClientLost.Load() == lost0; i++ {
+			for _, cl := range pipes {
+				cl.Close()
+			}
+			// the real clients' readers end through core.Fatal("lost connection"):
+			// wait for them so that they are not mistaken for a loss in the next scenario
+			for i := 0; cs.NClientLost.Load() < lost0+int32(nconn); i++ {
 				time.Sleep(200 * time.Microsecond)
 				if i > 600000 {
 					cs.Fatal("the mux client's reader did not end within 120 s after Close")
